@@ -356,7 +356,7 @@ func c06RunRaw(raw json.RawMessage) *vstat.Failure {
 }
 
 func TestC06(t *testing.T) {
-	st := vstat.New("C06", "sets of 1-4 programs from the typed grammar G (metric names m0..m4 and a shared pool of exported names, so names collide across programs with equal or different kinds, value types and keys; some programs broken, some raising runtime errors) x a history of load/unload events and line batches instantiated from the programs' own patterns; metamorphic oracle: for every program that was never refused, its metrics after EVERY step and its exported series equal those of the same history with the other programs' events removed; a load may fail only if the source does not compile on its own or another program holds one of its names with another kind. non-trivial = two programs loaded together share an exported name and lines changed the program's metrics; distinct by case")
+	st := vstat.New("C06", "sets of 1-4 programs from the typed grammar G (metric names m0..m4 and a shared pool of exported names, so names collide across programs with equal or different kinds, value types and keys; some programs broken, some raising runtime errors; optionally a hand-written pair: one that marks its label values for expiry next to one that keeps the same label values, two byte-identical copies of one file, or one that sets its clock from the log next to one that branches on the clock it sees) x a history of load/unload events and line batches instantiated from the programs' own patterns; metamorphic oracle: for every program that was never refused, its metrics after EVERY step and its exported series equal those of the same history with the other programs' events removed; a load may fail only if the source does not compile on its own or another program holds one of its names with another kind. non-trivial = two programs loaded together share an exported name and lines changed the program's metrics; distinct by case")
 	st.Assumptions = []string{"which names are 'already used' is read from the store at load time (metrics of unloaded programs count)", "HELP text of a shared family is not compared (it names the first declaring program)"}
 	st.Run(t, c06RunRaw, func() {
 		feats := gen.AllFeatures()
@@ -396,7 +396,27 @@ func TestC06(t *testing.T) {
 				c.Broken = append(c.Broken, rapid.IntRange(0, 14).Draw(rt, "broken") == 0)
 			}
 			extraLines := false
-			if rapid.IntRange(0, 3).Draw(rt, "extrapair") == 0 {
+			extraText := []string{"word a", "word b", "word c"}
+			switch rapid.IntRange(0, 11).Draw(rt, "extraset") {
+			case 0, 1:
+				// the same file twice under two names (cp a.mtail b.mtail): each copy
+				// has metrics of its own
+				src := "counter copy_lines by w\ngauge copy_last\n/^word (?P<w>\\w+)$/ {\n  copy_lines[$w]++\n  copy_last = len($w)\n}\n"
+				c.Extra = []string{src, src}
+				extraLines = true
+				st.Class("with-byte-identical-copies")
+			case 2, 3:
+				// one program takes its clock from the log, the other never sets it and
+				// branches on the time it sees (the wall clock, decades later)
+				c.Extra = []string{
+					"gauge log_time\n/^at (?P<t>\\d+) / {\n  settime($t)\n  log_time = timestamp()\n}\n",
+					"counter recent\ncounter long_ago\n/^at / {\n  timestamp() > 1500000000 {\n    recent++\n  } else {\n    long_ago++\n  }\n}\n",
+				}
+				extraText = []string{"at 86400 x", "at 1000000 y", "at 31536000 z"}
+				extraLines = true
+				st.Class("with-clock-setting-and-clock-reading-pair")
+			}
+			if c.Extra == nil && rapid.IntRange(0, 3).Draw(rt, "extrapair") == 0 {
 				// a pair with several same-keyed metrics: one program marks every label
 				// value it touches for expiry, the other keeps the same label values
 				var exp, keep strings.Builder
@@ -439,7 +459,10 @@ func TestC06(t *testing.T) {
 						stp.Lines = append(stp.Lines, c06Line{File: files[rapid.IntRange(0, 1).Draw(rt, "file")], Text: g.GenLine()})
 					}
 					if extraLines {
-						stp.Lines = append(stp.Lines, c06Line{File: "b.log", Text: "word " + rapid.SampledFrom([]string{"a", "b", "c"}).Draw(rt, "word")})
+						ne := rapid.IntRange(1, 3).Draw(rt, "nextra")
+						for k := 0; k < ne; k++ {
+							stp.Lines = append(stp.Lines, c06Line{File: "b.log", Text: rapid.SampledFrom(extraText).Draw(rt, "word")})
+						}
 					}
 				}
 				c.Steps = append(c.Steps, stp)
